@@ -323,6 +323,7 @@ theorem len_ftapeFirst : ∀ (f : FFirst) (b : Nat) (a : Bytes), (ftapeFirst f b
   | .kv _ _ o v, b, a => by
     simp only [ftapeFirst, fcntFirst, List.length_append, List.length_cons, List.length_nil, len_ftapeV v]
     try omega
+  | .flds f, b, a => by simp only [ftapeFirst, fcntFirst, len_ftapeF f]
 theorem len_ftapeF : ∀ (fs : FFields) (b : Nat) (a : Bytes), (ftapeF fs b a).length = fcntF fs
   | .nil, _, _ => by simp [ftapeF, fcntF]
   | .cons _ _ _ o v rest, b, a => by
@@ -404,6 +405,14 @@ theorem scal_head_skip {g0 : Bytes} {s : Scal} (Y : Bytes) (h0 : Blank g0) (hs :
   refine ⟨c, r ++ Y, ?_, h125⟩
   rw [skipWs_blank h0, skipWs_scalX hs, htx]; rfl
 
+theorem Blank.append {a b : Bytes} (ha : Blank a) (hb : Blank b) : Blank (a ++ b) := by
+  induction ha with
+  | nil => simpa using hb
+  | ws c w hc _ ih => exact .ws c _ hc ih
+  | comment body w hbody _ ih =>
+    have : 35 :: (body ++ 10 :: w) ++ b = 35 :: (body ++ 10 :: (w ++ b)) := by simp
+    rw [this]; exact .comment body _ hbody ih
+
 /-- what stands first in a nested object is not a `}` -/
 theorem first_head {first : FFirst} {a : Bytes} (hv : FValidFirst first a) {g0 : Bytes} (h0 : Blank g0)
     (Y : Bytes) : ∃ c2 r2, skipWs (g0 ++ (frenderFirst first ++ Y)) = some (c2 :: r2) ∧ c2 ≠ 125 := by
@@ -412,6 +421,30 @@ theorem first_head {first : FFirst} {a : Bytes} (hv : FValidFirst first a) {g0 :
     simp only [FValidFirst] at hv
     simp only [frenderFirst, List.append_assoc]
     exact scal_head_skip _ h0 hv.2.1
+  | flds f =>
+    simp only [FValidFirst] at hv
+    obtain ⟨hs, hv⟩ := hv
+    have hbr : ∀ (g : Bytes) (Z : Bytes), Blank g → ∃ c2 r2, skipWs (g0 ++ (g ++ 91 :: Z)) = some (c2 :: r2) ∧ c2 ≠ 125 :=
+      fun g Z hg => ⟨91, Z, by rw [skipWs_blank h0, skipWs_blank hg, skipWs_cons _ blank_open_br (by decide)],
+        by decide⟩
+    cases f with
+    | consHdr g0' k g1 o gh h body rest =>
+      simp only [FValidF] at hv
+      simp only [frenderFirst, frenderF, List.append_assoc]
+      rw [← List.append_assoc]
+      exact scal_head_skip _ (h0.append hv.1) hv.2.2.2.1
+    | paramVal g0' isU name g1 val g2 rest =>
+      simp only [FValidF] at hv
+      simp only [frenderFirst, frenderF, paramOpen, List.append_assoc, List.cons_append]
+      exact hbr _ _ hv.1
+    | paramObj g0' isU name g1 k g2 o v inner gc rest =>
+      simp only [FValidF] at hv
+      simp only [frenderFirst, frenderF, paramOpen, List.append_assoc, List.cons_append]
+      exact hbr _ _ hv.1
+    | nil => simp [FFields.startsSpecial] at hs
+    | cons _ _ _ _ _ _ => simp [FFields.startsSpecial] at hs
+    | consImp _ _ _ _ => simp [FFields.startsSpecial] at hs
+    | ghost _ _ _ => simp [FFields.startsSpecial] at hs
 
 theorem fcontainer_open {v : FVal} {a : Bytes} (hc : v.isContainer) (hv : FValidV v a) :
     ∃ g X, frenderV v = g ++ 123 :: X ∧ Blank g := by
@@ -494,12 +527,21 @@ theorem skipWs_fitems_some {is : FItems} {a : Bytes} (hv : FValidI is a) {gc : B
 
 /-- a first field that starts with a scalar key reads `key blanks op …` -/
 theorem first_scalarLed_shape {first : FFirst} {a : Bytes} (hs : first.scalarLed) (hv : FValidFirst first a) :
-    ∃ (k : Scal) (g1 : Bytes) (o : Op) (Y : Bytes), frenderFirst first = k.text ++ (g1 ++ (o.text ++ Y)) ∧
-      Blank g1 ∧ k.ValidX ∧ (k.quoted = false → StartsBoundary (g1 ++ o.text)) := by
+    ∃ (gx : Bytes) (k : Scal) (g1 : Bytes) (o : Op) (Y : Bytes),
+      frenderFirst first = gx ++ (k.text ++ (g1 ++ (o.text ++ Y))) ∧
+      Blank gx ∧ Blank g1 ∧ k.ValidX ∧ (k.quoted = false → StartsBoundary (g1 ++ o.text)) := by
   cases first with
   | kv k g1 o v =>
     simp only [FValidFirst] at hv
-    exact ⟨k, g1, o, frenderV v, by simp [frenderFirst], hv.1, hv.2.1, hv.2.2.1⟩
+    exact ⟨[], k, g1, o, frenderV v, by simp [frenderFirst], .nil, hv.1, hv.2.1, hv.2.2.1⟩
+  | flds f =>
+    simp only [FValidFirst] at hv
+    cases f <;> simp [FFirst.scalarLed, FFields.hdrLed] at hs
+    next g0' k g1 o gh h body rest =>
+      have hv := hv.2
+      simp only [FValidF] at hv
+      exact ⟨g0', k, g1, o, gh ++ (h.text ++ (frenderV body ++ frenderF rest)), by simp only [frenderFirst, frenderF],
+        hv.1, hv.2.1, hv.2.2.2.1, hv.2.2.2.2.1⟩
 
 /-- in mixed mode ParseOpen flags the enclosing container and leaves mixed mode; from then on the
 run is the one that starts outside mixed mode on the flagged tape -/
@@ -538,15 +580,17 @@ theorem run_mixed_eq {n : Nat} {v : FVal} {after : Bytes} (f : Nat) (st : St)
   | obj g g0 first rest gc =>
     simp only [FVal.scalarLed] at hsl
     simp only [FValidV] at hv
-    obtain ⟨k, g1, o, Y, hsh, h1, hk, hkb⟩ := first_scalarLed_shape hsl hv.2.2.2.1
+    obtain ⟨gx, k, g1, o, Y, hsh, hgx, h1, hk, hkb⟩ := first_scalarLed_shape hsl hv.2.2.2.1
     simp only [frenderV, hsh, List.append_assoc, List.cons_append]
-    exact key g g0 _ k g1 o hv.1 hv.2.1 h1 hk hkb
+    rw [← List.append_assoc g0 gx]
+    exact key g (g0 ++ gx) _ k g1 o hv.1 (hv.2.1.append hgx) h1 hk hkb
   | mixed g g0 first rest gm m0 items gc =>
     simp only [FVal.scalarLed] at hsl
     simp only [FValidV] at hv
-    obtain ⟨k, g1, o, Y, hsh, h1, hk, hkb⟩ := first_scalarLed_shape hsl hv.2.2.2.2.1
+    obtain ⟨gx, k, g1, o, Y, hsh, hgx, h1, hk, hkb⟩ := first_scalarLed_shape hsl hv.2.2.2.2.1
     simp only [frenderV, hsh, List.append_assoc, List.cons_append]
-    exact key g g0 _ k g1 o hv.1 hv.2.1 h1 hk hkb
+    rw [← List.append_assoc g0 gx]
+    exact key g (g0 ++ gx) _ k g1 o hv.1 (hv.2.1.append hgx) h1 hk hkb
   | arrS g g0 s0 rest gc =>
     simp only [FValidV] at hv
     obtain ⟨hg, h0, hgc, hs0, hsb, hpk, hvr⟩ := hv
@@ -575,6 +619,42 @@ theorem fsteps_scalarLed {v : FVal} (h : v.scalarLed) : 2 ≤ fstepsV v := by
 
 theorem scalarLed_braced {v : FVal} (h : v.scalarLed) : v.bracedB = true := by
   cases v <;> simp [FVal.scalarLed] at h <;> rfl
+
+/-- a first field that starts with a scalar key: ParseOpen and Key lead to the same state two
+iterations later -/
+theorem run_first_key_scal {n : Nat} (F : Nat) (T : List Tok) (P : Nat) {g0 g1 : Bytes} {k : Scal} {o : Op}
+    {Y : Bytes} (h0 : Blank g0) (hk : k.ValidX) (h1 : Blank g1)
+    (hkb : k.quoted = false → StartsBoundary (g1 ++ o.text)) (hY : Y.head? ≠ some 61) :
+    run n (F + 2) ⟨.parseOpen, false, P, T ++ [.array 0 false]⟩ (g0 ++ (k.text ++ (g1 ++ (o.text ++ Y)))) =
+      run n (F + 2) ⟨.key, false, T.length, T ++ [.object P false]⟩ (g0 ++ (k.text ++ (g1 ++ (o.text ++ Y)))) := by
+  have hkX : k.quoted = false → StartsBoundary (g1 ++ (o.text ++ Y)) := by
+    intro hq
+    rcases hkb hq with h | ⟨c', r', h, hc'⟩
+    · have : o.text ≠ [] := by cases o <;> simp [Op.text]
+      simp at h; exact absurd h.2 this
+    · exact .inr ⟨c', r' ++ Y, by rw [← List.cons_append, ← h]; simp, hc'⟩
+  have hL : run n (F + 2) ⟨.parseOpen, false, P, T ++ [.array 0 false]⟩ (g0 ++ (k.text ++ (g1 ++ (o.text ++ Y)))) =
+      run n F ⟨.objectValue, false, T.length, T ++ [.object P false, k.tok (g1 ++ (o.text ++ Y))] ++ o.toks⟩ Y := by
+    rw [show F + 2 = (F + 1) + 1 from rfl, run_cont (step_parseopen_fieldX (T := T) rfl rfl rfl h0 hk h1 hkb)]
+    have hop := step_kvs_op (n := n) (g := []) (o := o)
+      (st := { state := .kvs, mixed := false, parent := T.length,
+               tape := T ++ [.object P false, k.tok (g1 ++ (o.text ++ Y))] }) (Y := Y) rfl rfl .nil hY
+    simp only [List.nil_append] at hop
+    rw [run_cont hop]
+  have hR : run n (F + 2) ⟨.key, false, T.length, T ++ [.object P false]⟩ (g0 ++ (k.text ++ (g1 ++ (o.text ++ Y)))) =
+      run n F ⟨.objectValue, false, T.length, T ++ [.object P false, k.tok (g1 ++ (o.text ++ Y))] ++ o.toks⟩ Y := by
+    rw [show F + 2 = (F + 1) + 1 from rfl, run_cont (step_key_scalX rfl h0 hk hkX)]
+    rw [run_cont (step_kvs_op (by simp) (by simp) h1 hY)]
+    simp
+  rw [hL, hR]
+
+/-- a parameter block as first field: ParseOpen turns the placeholder into the object and goes on
+exactly as Key does inside that object -/
+theorem step_parseopen_param {n : Nat} (T : List Tok) (P : Nat) {g : Bytes} (X : Bytes) (hg : Blank g) :
+    step n ⟨.parseOpen, false, P, T ++ [.array 0 false]⟩ (g ++ 91 :: 91 :: X) =
+      step n ⟨.key, false, T.length, T ++ [.object P false]⟩ (g ++ 91 :: 91 :: X) := by
+  simp only [step, skipWs_blank hg, skipWs_cons _ blank_open_br (by decide), stepAt]
+  simp [stepParseOpen, stepKey, paramDef, paramDefPre, setTok]
 
 theorem flagIf_append (b : Bool) (T R : List Tok) (p : Nat) (hp : p < T.length) :
     flagIf b (T ++ R) p = flagIf b T p ++ R := by
@@ -840,6 +920,46 @@ theorem frun_First (n : Nat) : ∀ (first : FFirst) (after : Bytes) (fuel : Nat)
     simp only [ftapeFirst, List.length_append, List.length_cons, List.append_assoc, List.cons_append,
       List.nil_append]
     simp only [Nat.add_assoc, Nat.add_comm, Nat.add_left_comm]
+  | .flds f, after, fuel, T, P, g0, hv, h0, hne, hz => by
+    simp only [FValidFirst] at hv
+    obtain ⟨hs, hvf⟩ := hv
+    have hF := frun_F n f after fuel ⟨.key, false, T.length, T ++ [.object P false]⟩ hvf rfl
+      (ctx_inner hne hz (.object P false) [] .key rfl)
+    simp only [fstepsFirst, frenderFirst]
+    rw [run_blank h0]
+    have heq : run n (fuel + fstepsF f) ⟨.parseOpen, false, P, T ++ [.array 0 false]⟩ (frenderF f ++ after) =
+        run n (fuel + fstepsF f) ⟨.key, false, T.length, T ++ [.object P false]⟩ (frenderF f ++ after) := by
+      cases f with
+      | consHdr g0' k g1 o gh h body rest =>
+        simp only [FValidF] at hvf
+        obtain ⟨hg0', h1, hgh, hk, hkb, hh, _, _, _, _, _⟩ := hvf
+        have hfuel : fuel + fstepsF (.consHdr g0' k g1 o gh h body rest) =
+            (fuel + fstepsF rest + fstepsV body + 1) + 2 := by simp only [fstepsF]; omega
+        rw [hfuel]
+        simp only [frenderF, List.append_assoc]
+        exact run_first_key_scal _ T P hg0' hk h1 hkb (head_blank_scal hgh hh _)
+      | paramVal g0' isU name g1 val g2 rest =>
+        simp only [FValidF] at hvf
+        have hfuel : fuel + fstepsF (.paramVal g0' isU name g1 val g2 rest) = (fuel + fstepsF rest) + 1 := by
+          simp only [fstepsF]; omega
+        rw [hfuel]
+        simp only [frenderF, paramOpen, List.append_assoc, List.cons_append]
+        simp only [run, step_parseopen_param T P _ hvf.1]
+      | paramObj g0' isU name g1 k g2 o v inner gc rest =>
+        simp only [FValidF] at hvf
+        have hfuel : fuel + fstepsF (.paramObj g0' isU name g1 k g2 o v inner gc rest) =
+            (fuel + fstepsF rest + 1 + fstepsF inner + fstepsV v + 1) + 1 := by
+          simp only [fstepsF]; omega
+        rw [hfuel]
+        simp only [frenderF, paramOpen, List.append_assoc, List.cons_append]
+        simp only [run, step_parseopen_param T P _ hvf.1]
+      | nil => simp [FFields.startsSpecial] at hs
+      | cons _ _ _ _ _ _ => simp [FFields.startsSpecial] at hs
+      | consImp _ _ _ _ => simp [FFields.startsSpecial] at hs
+      | ghost _ _ _ => simp [FFields.startsSpecial] at hs
+    rw [heq, hF]
+    congr 1
+    simp [ftapeFirst]
 theorem frun_F (n : Nat) : ∀ (fs : FFields) (after : Bytes) (fuel : Nat) (st : St),
     FValidF fs after → st.state = .key → Ctx3 st →
     run n (fuel + fstepsF fs) st (frenderF fs ++ after) =
@@ -1191,6 +1311,9 @@ theorem fstepsFirst_le : ∀ (f : FFirst) (a : Bytes), FValidFirst f a → fstep
     have h2 := o.text_pos
     have h3 := fstepsV_le v _ hv.2.2.2
     simp only [fstepsFirst, frenderFirst, List.length_append]; omega
+  | .flds f, a, hv => by
+    simp only [FValidFirst] at hv
+    simpa [fstepsFirst, frenderFirst] using fstepsF_le f a hv.2
 theorem fstepsF_le : ∀ (fs : FFields) (a : Bytes), FValidF fs a → fstepsF fs ≤ 2 * (frenderF fs).length
   | .nil, _, _ => by simp [fstepsF]
   | .cons g0 k g1 o v rest, a, hv => by
